@@ -1007,13 +1007,18 @@ func TestSmallExhaustive(t *testing.T) {
 						continue // the list-order variants are sampled for 5 nodes
 					}
 					for root := 0; root < nn; root++ {
+						if nn == 5 && root != 0 && root != 4 {
+							// every labelled graph is enumerated, so the other roots are relabellings of
+							// these; the first and last label keep the index-order-dependent paths covered
+							continue
+						}
 						checkSmall.RunEnum(tb, &SmallCase{N: nn, Mask: uint64(m), Variant: variant, Root: root})
 					}
 				}
 			}
 		})
 	}
-	ev.Exhaustive(fmt.Sprintf("all digraphs on 1..%d nodes x 3 list presentations x every root", maxN))
+	ev.Exhaustive(fmt.Sprintf("all digraphs on 1..%d nodes x 3 list presentations x every root (5 nodes: roots 0 and 4, list variants sampled 1 in 16)", maxN))
 }
 
 func TestRandomGraphs(t *testing.T) {
